@@ -9,6 +9,7 @@ RULES = {
     "Y1": rules_state.rule_Y1,
     "M2": rules_state.rule_M2,
     "Q2": rules_iter.rule_Q2,
+    "N8": rules_iter.rule_N8,
     "N1": rules_arith.rule_N1,
     "N2": rules_arith.rule_N2,
     "E1": rules_except.rule_E1,
@@ -62,7 +63,7 @@ PROPS = {
     "C02": {
         "id": "C02",
         "title": "Inverse transforms invert the forward transforms",
-        "rules": ["A1b", "A1", "G7", "A2", "R2", "M1"],
+        "rules": ["A1b", "A1", "G7", "A2", "R2", "M1", "N8"],
         "clause": "every even n accepted by irfft/IfftPlanR satisfies what the twiddle-table helper believes about n, and odd n is "
                   "rejected by exception before any table is sized or indexed (member initialisers included); no function of the "
                   "transform and stft files keeps a value between calls under a key that omits an argument it was computed from (M1)",
@@ -103,7 +104,7 @@ PROPS = {
     "C05": {
         "id": "C05",
         "title": "No call corrupts memory or hangs: misuse is reported by exception",
-        "rules": ["G1", "G2", "G3", "G5", "G6", "E1", "A1", "Z1", "Z2", "D2", "G7", "N4", "A2", "Q1", "E2", "Y1", "Q2", "N2"],
+        "rules": ["G1", "G2", "G3", "G5", "G6", "E1", "A1", "Z1", "Z2", "D2", "G7", "N4", "A2", "Q1", "E2", "Y1", "Q2", "N2", "N8"],
         "clause": "guard completeness (mechanisms 1-3 of the anchors): every plan solve() checks the input length with a live "
                   "check before mixing it with plan tables; every foreign-bound subscript and caller-supplied index in a public "
                   "function is dominated by a live relating guard; slices are range-checked at creation and count-checked at "
@@ -259,7 +260,7 @@ PROPS = {
     "C19": {
         "id": "C19",
         "title": "Noise injection and SNR/THD measurement are calibrated; random streams reproduce",
-        "rules": ["P2b", "N5", "N6", "M1"],
+        "rules": ["P2b", "N5", "N6", "M1", "N3"],
         "clause": "one thread_local engine is the only entropy source of every generator and of awgn (reproducibility after rng(seed), per-thread independence); "
                   "no measurement function keeps a value between calls under a key that omits an argument it was computed from (M1)",
         "not_decided": "noise power calibration, SNR/THD/SINAD accuracy, randi bounds",
